@@ -185,7 +185,27 @@ def _mk_async_wrapper(name):
     return awrap
 
 
+def _mk_sync_wrapper(name):
+    """A *plain* function created with functools.wraps around an `async def` (an async-to-sync
+    adapter that runs the coroutine itself and hands back a plain value): it is not a coroutine
+    function and must be treated as the plain function it is."""
+    import functools
+
+    async def inner(self, *args, **kwargs):
+        return None
+
+    inner.__name__ = name
+    inner.__qualname__ = f"HSI.{name}"
+
+    @functools.wraps(inner)
+    def swrap(self, *args, **kwargs):
+        return CUR.env.call(self, name, args, kwargs)
+    return swrap
+
+
 def _mk(name, flags):
+    if "S" in flags:
+        return _mk_sync_wrapper(name)
     if "W" in flags:
         return _mk_async_wrapper(name)
     if "w" in flags:
